@@ -15,6 +15,7 @@ UNITS = {
     "drv": ("units/drv.rs", None),
     "final": ("units/final.rs", None),
     "rank": ("units/rank.rs", None),
+    "agg": ("units/agg.rs", None),
     "quant": ("units/quant.rs", None),
     "gen": ("units/gen.rs", None),
     "parse": ("units/parse.rs", None),
@@ -129,6 +130,12 @@ PLAN["C12"] = dict(
 
 PLAN["C04"] = dict(
     verus=dict(quick=["bin.of64", "reg.of64"], thorough=["bin.of64", "bin.f64", "reg.of64", "reg.f64"]),
+    kani=dict(quick=[], thorough=[]),
+    level="proof",
+)
+
+PLAN["C11"] = dict(
+    verus=dict(quick=["agg"], thorough=["agg"]),
     kani=dict(quick=[], thorough=[]),
     level="proof",
 )
